@@ -12,15 +12,16 @@ from __future__ import annotations
 
 import numpy as np
 
+from .. import models
 from ..core import RunResult, adigest, mix
 from ..seams import global_state_digest
 from .hist_common import quiet
 
 NAME = "K"
 PROPERTY = "C14"
-RUNS = {"quick": 1500, "thorough": 60000}
+RUNS = {"quick": 900, "thorough": 40000}
 RUN_WALL_CAP = 240.0
-REQUIRED_PROBES = {"quick": ["randomized_stage_ran", "exact_regime:k_ge_min_dim", "exact_regime:rank_one", "exact_regime:transpose_exact", "sdp_stage_k1", "sdp_stage_k2", "unequal_dims", "dim_scalar", "dim_omitted", "target_given", "non_hermitian", "projection"], "thorough": ["randomized_stage_ran", "exact_regime:k_ge_min_dim", "exact_regime:rank_one", "exact_regime:transpose_exact", "sdp_stage_k1", "sdp_stage_k2", "unequal_dims", "dim_scalar", "dim_omitted", "target_given", "non_hermitian", "projection", "result_differs_between_rng_states"]}
+REQUIRED_PROBES = {"quick": ["randomized_stage_ran", "exact_regime:k_ge_min_dim", "exact_regime:rank_one", "exact_regime:transpose_exact", "sdp_stage_k1", "sdp_stage_k2", "unequal_dims", "dim_scalar", "dim_omitted", "target_given", "non_hermitian", "projection", "own_upper_bound:dps2", "own_upper_bound:bilinear", "ppt_edge_operator"], "thorough": ["randomized_stage_ran", "exact_regime:k_ge_min_dim", "exact_regime:rank_one", "exact_regime:transpose_exact", "sdp_stage_k1", "sdp_stage_k2", "unequal_dims", "dim_scalar", "dim_omitted", "target_given", "non_hermitian", "projection", "result_differs_between_rng_states", "own_upper_bound:dps2", "own_upper_bound:bilinear", "ppt_edge_operator"]}
 COMPONENTS = {"real": ["toqito.matrix_props.sk_operator_norm incl. the randomised lower bound", "toqito.state_props.sk_vector_norm, schmidt_rank, schmidt_decomposition", "toqito.perms.swap / symmetric_projection", "toqito.channels.partial_trace / partial_transpose / realignment", "scipy.linalg.eigh, cvxpy + SCS/Clarabel"], "stub": ["numpy process-global legacy RNG state (set from the choice source; adversary draws between calls)"]}
 RULE = ("one run = one operator (density / PSD / projection of seeded rank / rank one / indefinite Hermitian / non-Hermitian; local dimensions 2..4, unequal allowed; k = 1..min dim; dim as list / scalar / omitted; effort 0..2; target set or not) "
         "evaluated under 2..4 global-RNG states with adversary draws in between; non-trivial = the randomised stage executed (global RNG state advanced by the call); distinct = distinct digest of (operator, k, options, RNG states)")
@@ -49,7 +50,37 @@ def draw_operator(st, tier):
     n = d0 * d1
     rng = st.nprng()
     cplx = bool(st.draw(2))
-    kind = st.weighted([("density", 4), ("psd", 2), ("projection", 3), ("rank_one", 2), ("indefinite", 1), ("non_hermitian", 1), ("low_rank_psd", 2)])
+    kind = st.weighted([("density", 4), ("psd", 2), ("projection", 3), ("rank_one", 2), ("indefinite", 2), ("non_hermitian", 1), ("low_rank_psd", 2), ("ppt_edge", 1), ("hermitian_pq", 1)])
+    if kind == "ppt_edge":
+        # operators whose maximum over PPT states sits on a bound-entangled edge state (Horodecki families)
+        fam = st.weighted([("2x4", 3), ("4x2", 2), ("3x3", 2)])
+        par = 0.05 + 0.9 * st.float01()
+        if fam == "3x3":
+            d0, d1 = 3, 3
+            rho = models.horodecki_3x3(par)
+        else:
+            d0, d1 = 2, 4
+            rho = models.horodecki_2x4(par)
+        x = models.ppt_edge_operator(rho, [d0, d1], 0.3 + st.float01(), 0.3 + st.float01())
+        if fam == "4x2":
+            x = models._swap_factors(x, 2, 4)
+            d0, d1 = 4, 2
+        dims = [d0, d1]
+        n = d0 * d1
+        rng = st.nprng()
+        cplx = bool(st.draw(2))
+
+        def lu(d):
+            g = rng.standard_normal((d, d)) + (1j * rng.standard_normal((d, d)) if cplx else 0)
+            return np.linalg.qr(g)[0]
+
+        u = np.kron(lu(d0), lu(d1))
+        x = u @ x @ u.conj().T
+        x = (x + x.conj().T) / 2
+        effort = st.weighted([(1, 5), (2, 1), (0, 1)])
+        dimform = st.weighted([("list", 3), ("scalar", 2)])
+        meta = {"dims": dims, "kind": kind, "family": fam, "parameter": par, "complex": cplx, "k": 1, "effort": effort, "dim_arg": dimform, "target": None}
+        return x, meta
 
     def gin(r, c):
         return rng.standard_normal((r, c)) + (1j * rng.standard_normal((r, c)) if cplx else 0)
@@ -77,6 +108,18 @@ def draw_operator(st, tier):
     elif kind == "indefinite":
         g = gin(n, n)
         x = (g + g.conj().T) / 2
+    elif kind == "hermitian_pq":
+        # |p><q| + |q><p| with p a product vector and q highly entangled: indefinite, far from its absolute value
+        a, b = gin(d0, 1), gin(d1, 1)
+        p = np.kron(a, b)
+        p = p / np.linalg.norm(p)
+        m = min(d0, d1)
+        q = np.zeros((n, 1), dtype=complex if cplx else float)
+        for i in range(m):
+            q[i * d1 + i, 0] = 1 / np.sqrt(m)
+        u = np.kron(np.linalg.qr(gin(d0, d0))[0], np.linalg.qr(gin(d1, d1))[0])
+        q = u @ q
+        x = p @ q.conj().T + q @ p.conj().T
     else:
         x = gin(n, n)
     k = st.int_range(1, min(dims) + (1 if st.draw(4) == 0 else 0))
@@ -179,6 +222,8 @@ def run(cs, tier, run_index):
         res.probe("non_hermitian")
     if meta["kind"] == "projection":
         res.probe("projection")
+    if meta["kind"] == "ppt_edge":
+        res.probe("ppt_edge_operator")
     dim_arg = {"list": list(dims), "scalar": dims[0], "omitted": None}[meta["dim_arg"]]
 
     # reference values
@@ -194,6 +239,24 @@ def run(cs, tier, run_index):
     psd = herm and float(np.linalg.eigvalsh((x + x.conj().T) / 2)[0]) >= -1e-8 * max(opn, 1)
     # with a target the routine may legitimately stop early with a looser (still valid) bracket
     trans_exact = psd and min(dims) == 2 and max(dims) <= 3 and k == 1 and meta["effort"] >= 1 and rank > 1 and meta["target"] is None
+
+    # own rigorous upper bound on the TRUE norm (not on the library's numbers): a valid lower bound can
+    # never exceed it.  k = 1 and PSD: second level of the symmetric-extension hierarchy; otherwise (non-PSD
+    # or non-Hermitian, any k): bilinear relaxation.  One SDP per run, only where it is cheap.
+    own_upper = None
+    gate = cs.s("config").draw(3)
+    if k < min(dims) and rank > 1:
+        small = min(dims)
+        cost = max(dims) * small * (small + 1) // 2
+        if psd and k == 1 and cost <= (40 if tier == "thorough" else 24) and (meta["kind"] == "ppt_edge" or gate == 0):
+            own_upper = ("dps2", models.sk1_dps2_upper(x, dims))
+        elif not psd and dims[0] * dims[1] <= 16 and (meta["kind"] in ("hermitian_pq", "indefinite") or gate == 0):
+            own_upper = ("bilinear", models.sk_bilinear_upper(x, k, dims))
+        if own_upper is not None and own_upper[1] is None:
+            res.failed("model:" + own_upper[0] + "_sdp")
+            own_upper = None
+        if own_upper is not None:
+            res.probe("own_upper_bound:" + own_upper[0])
 
     rs = cs.s("rng")
     n_states = rs.int_range(2, 4)
@@ -250,6 +313,12 @@ def run(cs, tier, run_index):
             res.violate("C14.sk.witness", witness=wit, upper=up, lower=lo, op_norm=opn, rng_seed=seed, **meta)
         if lo > opn + slack:
             res.violate("C14.sk.order", why="lower bound above the operator norm", lower=lo, op_norm=opn, rng_seed=seed, **meta)
+        if own_upper is not None:
+            res.checks_sim += 1
+            if lo > own_upper[1] + slack + 1e-5 * max(opn, 1):
+                res.violate("C14.sk.lower_valid", lower=lo, own_upper_bound_on_true_norm=own_upper[1], method=own_upper[0], upper=up, witness=wit, op_norm=opn, rng_seed=seed, **meta)
+            if wit > own_upper[1] + slack + 1e-5 * max(opn, 1):
+                raise AssertionError("reference models disagree: witness %r above own upper bound %r" % (wit, own_upper[1]))
         if exact is not None:
             res.probe("exact_regime:" + exact[0])
             res.checks_sim += 1
